@@ -4204,6 +4204,18 @@ where
     pub fn is_valid(&self) -> Result<(), TdsValidationError> {
         // Fast-fail: return the first violated invariant.
         // For full diagnostics across all structural invariants, use `validation_report()`.
+        self.validate_structure_without_orientation()?;
+        self.validate_coherent_orientation()?;
+
+        Ok(())
+    }
+
+    /// All Level 2 invariants of [`is_valid`](Self::is_valid) except coherent orientation.
+    ///
+    /// Also used by deserialization, which must reject documents that do not describe a
+    /// consistent complex but keeps accepting orientation-only differences (those are reported
+    /// by `is_valid()` / `validate()` on the loaded value).
+    fn validate_structure_without_orientation(&self) -> Result<(), TdsValidationError> {
         self.validate_vertex_mappings()?;
         self.validate_cell_mappings()?;
 
@@ -4220,7 +4232,6 @@ where
         let facet_to_cells = self.build_facet_to_cells_map()?;
         Self::validate_facet_sharing_with_facet_to_cells_map(&facet_to_cells)?;
         self.validate_neighbors_with_facet_to_cells_map(&facet_to_cells)?;
-        self.validate_coherent_orientation()?;
 
         Ok(())
     }
@@ -4258,6 +4269,15 @@ where
     where
         T: CoordinateScalar,
     {
+        self.validate_elements()?;
+        self.is_valid()
+    }
+
+    /// Level 1: every vertex and every cell is valid on its own.
+    fn validate_elements(&self) -> Result<(), TdsValidationError>
+    where
+        T: CoordinateScalar,
+    {
         for (_vertex_key, vertex) in &self.vertices {
             if let Err(source) = (*vertex).is_valid() {
                 return Err(TdsError::InvalidVertex {
@@ -4281,7 +4301,7 @@ where
             }
         }
 
-        self.is_valid()
+        Ok(())
     }
 
     /// Runs structural validation checks and returns a report containing **all** failed invariants.
@@ -5144,6 +5164,14 @@ where
                 // Order: neighbors first, then incident cells (consistent with other call sites).
                 tds.assign_neighbors().map_err(de::Error::custom)?;
                 tds.assign_incident_cells().map_err(de::Error::custom)?;
+
+                // The document is untrusted: duplicated records, duplicate UUIDs, repeated or
+                // missing vertices in a cell, duplicate cells etc. survive the rebuild above.
+                // Reject anything that is not a consistent complex instead of returning it.
+                // (Orientation coherence is deliberately left to `is_valid()` on the loaded value.)
+                tds.validate_elements().map_err(de::Error::custom)?;
+                tds.validate_structure_without_orientation()
+                    .map_err(de::Error::custom)?;
 
                 Ok(tds)
             }
